@@ -34,11 +34,17 @@ func walk[V any](it age.IteratorLike[V]) []V {
 
 func genStackCase(s core.Source) stackCase {
 	var c stackCase
-	c.Ctor = core.Pick(s, []string{"make", "cap", "cap", "array", "seq"}, "ctor")
+	c.Ctor = core.Pick(s, []string{"make", "cap", "cap", "array", "seq", "seq-stack", "seq-stack-cap"}, "ctor")
 	switch c.Ctor {
 	case "cap":
 		c.Cap = uint(s.Int(1, 4, "capacity"))
-	case "array", "seq":
+	case "seq-stack-cap":
+		// the source is a small stack filled to its capacity
+		c.Cap = uint(s.Int(1, 4, "capacity"))
+		for i := uint(0); i < c.Cap; i++ {
+			c.Init = append(c.Init, int(i)+100)
+		}
+	case "array", "seq", "seq-stack":
 		// 0 .. 2*default+1 initial values, biased to the capacity boundary
 		var n int64
 		switch s.Choose(4, "initclass") {
@@ -88,7 +94,7 @@ func execStackCase(c stackCase, _ core.Source) core.Result {
 	var res core.Result
 	class := col.Stack[int](lib.Notation())
 	def := class.DefaultCapacity()
-	var st col.StackLike[int]
+	var st, source col.StackLike[int]
 	var model []int // top first
 	capacity := def
 	panicked, payload := lib.Call(func() {
@@ -102,6 +108,15 @@ func execStackCase(c stackCase, _ core.Source) core.Result {
 			st = class.MakeFromArray(c.Init)
 		case "seq":
 			st = class.MakeFromSequence(col.List[int](lib.Notation()).MakeFromArray(c.Init))
+		case "seq-stack":
+			source = class.MakeFromArray(c.Init)
+			st = class.MakeFromSequence(source)
+		case "seq-stack-cap":
+			source = class.MakeWithCapacity(c.Cap)
+			for i := len(c.Init) - 1; i >= 0; i-- {
+				source.AddValue(c.Init[i])
+			}
+			st = class.MakeFromSequence(source)
 		}
 	})
 	model = append(model, c.Init...)
@@ -197,6 +212,22 @@ func execStackCase(c stackCase, _ core.Source) core.Result {
 		}
 		if v := check(i, op.Kind); v != nil {
 			res.Violation = v
+			return res
+		}
+	}
+	if source != nil {
+		// the stack it was constructed from is a collection of its own: untouched by the history above,
+		// and changing it now must not reach the new stack
+		if arr := source.AsArray(); !lib.EqInts(arr, c.Init) || uint(source.GetSize()) > source.GetCapacity() {
+			res.Violation = core.Violate("C13/ctor/shares-source", "operations on a stack made by MakeFromSequence(stack) changed the source stack: %v (size %d, capacity %d), it held %v", arr, source.GetSize(), source.GetCapacity(), c.Init)
+			return res
+		}
+		before := st.AsArray()
+		lib.Call(func() { source.RemoveTop() })
+		lib.Call(func() { source.AddValue(-1) })
+		source.RemoveAll()
+		if arr := st.AsArray(); !lib.EqInts(arr, before) {
+			res.Violation = core.Violate("C13/ctor/shares-source", "changing the source stack changed the stack made from it: %v -> %v", before, arr)
 			return res
 		}
 	}
